@@ -130,9 +130,15 @@ func (pnf *PrevNextFinder) FindOutlink(root *html.Node, pageURL *nurl.URL, findN
 		linkHref = stringutil.CreateAbsoluteURL(linkHref, pageURL)
 
 		// Make sure the link href is absolute
-		_, err := nurl.ParseRequestURI(linkHref)
+		parsedHref, err := nurl.ParseRequestURI(linkHref)
 		if err != nil {
 			pnf.appendDebugStrForLink(link, "ignored: can't converted to abs url")
+			continue
+		}
+
+		// Only http and https links can be fetched as another page
+		if parsedHref.Scheme != "http" && parsedHref.Scheme != "https" {
+			pnf.appendDebugStrForLink(link, "ignored: not http or https")
 			continue
 		}
 
